@@ -28,8 +28,18 @@ def real_case(case):
 
 
 def is_pre(case):
-    """cases the thread model has no program for: they start before the connection exists (`cn`) or abandon the loop (`ab`)"""
+    """cases that start before the connection exists (`cn`: model state `initPre`, loop call `.connect`) or abandon the loop
+    (`ab`: loop call `.abandon`); compared with the thread model like all others (they were oracle-only before)"""
     return any(p and p[0] in ('cn', 'ab') for p in case['progs'])
+
+
+def dead_writes(r):
+    """calls whose `sendall` was attempted on a socket the loop thread had already shut down (or after `_sock = None` was stored) -
+    the window between the `sockclose` of `_close_socket()` and the stores that make `_check_writable` refuse (`_sock = None`,
+    `closed = True`), reachable when the loop is abandoned (`ab`) or the request write fails (`cn` + fail).  The real code raises
+    TransportFail (swallowed by close()) and writes nothing; the thread model has no failing write on a shut socket (its `write1`
+    appends to the wire): these runs are judged by the oracle alone and counted (a documented gap of the model, not of lomond)."""
+    return {(t, c) for t, c in r.get('dead_writes', [])}
 
 
 def progs_str(case):
@@ -226,13 +236,33 @@ def dataflow_problems(r):
     return probs
 
 
+def merged_chunks(r):
+    """the frame chunks with the chunks of the HTTP request (pre-connect cases; empty hex, marked) put back where they were written"""
+    chunks = [(t, c, h, hx, False) for t, c, h, hx in r['chunks']]
+    out, k = [], 0
+    req = list(r.get('request', []))
+    for i in range(len(chunks) + 1):
+        while k < len(req) and req[k][4] == i:
+            t, c, h, hx, _ = req[k]
+            out.append((t, c, h, '', True))
+            k += 1
+        if i < len(chunks):
+            out.append(chunks[i])
+    return out
+
+
 def canon_real(case, r):
     toks = ['x%d:%s' % (t, k) for t, k in r['steps']]
     chunks = r['chunks']
-    for t, c, h, hx in chunks:
-        b0 = _frame_first_byte(chunks, t, c)
+    allc = merged_chunks(r)
+    reqs = {(t, c) for t, c, h, hx, q in allc if q}
+
+    def first_byte(t, c):
+        return None if (t, c) in reqs else _frame_first_byte(chunks, t, c)
+    for t, c, h, hx, q in allc:
+        b0 = first_byte(t, c)
         z = b0 is not None and (b0 & 0x40)
-        toks.append('W%d.%d%s:%s' % (t, c, 'ab'[h], 'z' if z else hx))
+        toks.append('W%d.%d%s:%s' % (t, c, 'ab'[h], 'req' if q else ('z' if z else hx)))
     zb = zbook(r)
     for t, c, h, hx in chunks:
         if h == 1:
@@ -240,11 +270,11 @@ def canon_real(case, r):
             if b0 is not None and (b0 & 0x40):
                 ctx, out = zb.get((t, c), (b'?', b'?'))
                 toks.append('F%d.%d:%d:%s:%s' % (t, c, b0 & 15, ctx.hex(), out.hex()))
-    wrote = {(t, c) for t, c, h, _ in chunks if h == 1}
+    wrote = {(t, c) for t, c, h, _, _ in allc if h == 1}
     for t in sorted(r['results']):
         for i, name in enumerate(r['results'][t]):
             toks.append('R%d.%d:%s:%s' % (t, i, name, 'w' if (t, i) in wrote else '-'))
-    tags = [(t, c, h) for t, c, h, _ in chunks]
+    tags = [(t, c, h) for t, c, h, _, _ in allc]
     gs = groups_of(tags)
 
     def g_whole(g):
@@ -260,7 +290,7 @@ def canon_real(case, r):
     after = False
     first_close = None
     for k, (t, c, h) in enumerate(tags):
-        b0 = _frame_first_byte(chunks, t, c)
+        b0 = first_byte(t, c)
         is_close = b0 is not None and (b0 & 15) == 8
         if h == 1 and is_close:
             closes += 1
@@ -273,7 +303,7 @@ def canon_real(case, r):
             after = True
     afterw = False
     for k, (t, c, h) in enumerate(tags):
-        b0 = _frame_first_byte(chunks, t, c)
+        b0 = first_byte(t, c)
         if h == 1 and b0 is not None and (b0 & 15) == 8 and k + 1 < len(tags):
             afterw = True
     fl = r['flags']
@@ -414,7 +444,7 @@ def judge_wire(case, r):
             else:
                 mustnot.append((t, i, e))
                 if res[i] == 'TransportFail':
-                    if (t, i) not in failed_sendalls:
+                    if (t, i) not in failed_sendalls and (t, i) not in dead_writes(r):
                         fails.append(('loser-wrong-error', 'call %d of thread %d (%s) raised TransportFail although its sendall was not made to fail' % (i, t, tok)))
                 elif res[i] not in WS_ERRORS:
                     fails.append(('loser-wrong-error', 'call %d of thread %d (%s) raised %s, not a WebSocketError' % (i, t, tok, res[i])))
@@ -630,9 +660,9 @@ def run_and_compare(res, cases, judge, model_ok):
         if '__crash__' in r:
             res.crashes.append(r)
             continue
-        # cases that start before the connection exists (`cn`) are judged by the oracle alone: the thread model starts from an
-        # established connection
-        lines.append(None if is_pre(c) else model_line(c, r['steps']))
+        # cases that start before the connection exists (`cn`, model state `initPre`) and cases that abandon the loop (`ab`) are
+        # compared with the thread model like all others
+        lines.append(None if dead_writes(r) else model_line(c, r['steps']))
         idx.append(k)
     todo = [l for l in lines if l is not None]
     mres = iter(runner.model_run(todo) if (model_ok and todo) else [None] * len(todo))
@@ -640,8 +670,10 @@ def run_and_compare(res, cases, judge, model_ok):
     seen_cls = {}
     for k, line, m in zip(idx, lines, models):
         c, r = cases[k], reals[k]
-        if is_pre(c):
-            res.count('oracle_only_cases_starting_before_connect')
+        if is_pre(c) and line is not None:
+            res.count('model_compared_cases_starting_before_connect_or_abandoning')
+        if line is None:
+            res.count('oracle_only_write_attempted_on_socket_already_shut_by_the_loop (model gap: no failing write on a shut socket)')
         key = (c['z'], progs_str(c), tuple(t for t, _ in r['steps']), c['mode'], env_keys(c))
         res.case(key, nontrivial=interleaved(r['steps']))
         res.count('mode_' + c['mode'])
